@@ -4,7 +4,6 @@ import (
 	"bytes"
 	"encoding/json"
 	"fmt"
-	"reflect"
 	"strings"
 	"testing"
 	"unicode/utf8"
@@ -214,7 +213,7 @@ func checkTxJSON(tx *gobinlog.Transaction) error {
 	before := cloneTx(tx)
 	defer func() { _ = before }()
 	err := guard(func() (e error) { out, e = json.Marshal(tx); return })
-	if err == nil && !reflect.DeepEqual(before, tx) {
+	if err == nil && !txEqual(before, tx) {
 		a, _ := json.Marshal(before)
 		return fmt.Errorf("serialising the transaction changed it; it was %.400s and now serialises as %.400s", a, out)
 	}
